@@ -41,6 +41,37 @@ def compare(chk, case, par, got, mode, collect=None):
     return ok
 
 
+def size_sweep(chk, cases, nmax, grid, frames=False, clause_prefix="size-sweep"):
+    """Every grain count 1..nmax, both dislocation regimes, the fabric and the parameter point cycling with the count:
+    the rates of the cyclic aggregate of an exact multi-grain case against the spec's per-grain terms composed by the
+    lumping lemma (harness/sizesweep.py)."""
+    from harness import sizesweep
+
+    recs, table = sizesweep.run(cases, nmax, grid[:3], frames=frames)
+    bad = {}
+    for r in recs:
+        chk.count(("sweep", frames, r["n"], r["regime"]))
+        if "bad" in r:
+            bad.setdefault((r["bad"], r["regime"]), []).append(r)
+            continue
+        to, tf = sizesweep.tolerances(r)
+        chk.maximum("size_sweep_orientation_rate_dev" + ("_frames" if frames else ""), r["do"] / r["so"] / r["kappa"])
+        chk.maximum("size_sweep_volume_rate_dev" + ("_frames" if frames else ""), r["dfd"] / r["sf"] / r["kappa"])
+        if not r["do"] <= to:
+            bad.setdefault(("orientation-rate", r["regime"]), []).append(r)
+        if not r["dfd"] <= tf:
+            bad.setdefault(("volume-rate", r["regime"]), []).append(r)
+    chk.cov["size_sweep" + ("_frames" if frames else "")] = dict(sizes=f"every grain count 1..{nmax}", regimes=[4, 6], calls=len(recs), base_cases=len(table))
+    for (clause, regime), rs in sorted(bad.items()):
+        rs.sort(key=lambda r: r["n"])
+        sizes = [r["n"] for r in rs]
+        chk.violation(dict(clause=f"{clause_prefix}-{clause}", regime=regime),
+                      f"derivatives on the cyclic aggregate of an exact case: {clause} wrong at {len(sizes)} grain count(s), first {sizes[:8]} (regime {regime}, fabric {rs[0]['fab']})",
+                      dict(sizes=sizes[:200], first=rs[0], base=table[(rs[0]["fab"], regime)]["case"], frames=frames,
+                           how="harness.sizesweep.aggregate(base, n): grain i is a copy of case grain i mod k, volumes W[g] / copies"))
+    return recs
+
+
 def main(tier):
     chk = Check("C02", tier)
     quick = tier != "thorough"
@@ -105,6 +136,7 @@ def main(tier):
         if dev > 1e-9 * max(1.0, float(np.abs(jo).max()), float(np.abs(jf).max())):
             chk.violation(dict(clause="jit-vs-interpreted", fabric=c["fab"], regime=c["regime"]), f"compiled and interpreted solvers differ by {dev:.3g}", dict(case=c, par=par))
     chk.cov["interpreted_cases"] = len(nojit_pairs)
+    size_sweep(chk, cases, 16384 if quick else 40000, grid)
     # negative control: a perturbed expectation (role swap in the program) must be flagged
     probe = Check("C02", tier, dry=True)
     c = dict(usable[7])
